@@ -22,7 +22,9 @@ RULE = ('scalar conversions: log-uniform arguments; fixed-sampling routes: rando
         'methods mdft and czt, both directions; FFT route: Q in {1,2,3,1.5,2.37}; spot predicates: flat pupils with '
         'k in {0,+-1,+-2.5,3,-1.75} waves of tilt on either axis. A case is non-trivial unless the array is 1x1 or '
         'the tilt and shift are all zero; distinct = distinct (item, input) tuples')
-ASSUMPTIONS = ['numpy matmul / exp / scipy.fft are trusted primitives (the model plugs Float.cos/sin/sqrt into the same sums)',
+ASSUMPTIONS = ['cases whose shift is handed over as a float32 ndarray are compared at 1e-5 (NumPy divides a float32 array by '
+               'output_dx in float32: the precision of the argument the user chose), all others at 1e-9',
+               'numpy matmul / exp / scipy.fft are trusted primitives (the model plugs Float.cos/sin/sqrt into the same sums)',
                'comparison tolerance 1e-9 relative to the largest modulus of the reference (fields are O(1), sizes <= 24x24: '
                'observed agreement 1e-14)',
                'FFT route on a non-square padded array: only axis 1 and the complex data are checked; the y-coordinate '
@@ -106,7 +108,7 @@ def _expected_peak(coords, target, period, lobe_ok):
     return int(order[0])
 
 
-def _spot_check(I_data, xs, ys, m, n, dx, lam, efl, ky, kx, norm, sx=0.0, sy=0.0):
+def _spot_check(I_data, xs, ys, m, n, dx, lam, efl, ky, kx, norm, sx=0.0, sy=0.0, tol=TOL):
     """the intensity of a tilted flat aperture at the coordinates the route reports (minus the requested shift)
     must be the analytic pattern centred on (kx, ky) lambda f / D, and its brightest sample the one nearest to it"""
     xi, eta = xs - sx, ys - sy
@@ -115,7 +117,7 @@ def _spot_check(I_data, xs, ys, m, n, dx, lam, efl, ky, kx, norm, sx=0.0, sy=0.0
     ey = dirichlet(m, ky / m - eta * dx / (lam * efl))
     ref = norm * np.outer(ey, ex)
     err = _relerr(amp, ref)
-    if err > TOL:
+    if err > tol:
         k, l = np.unravel_index(np.argmax(np.abs(amp - ref)), amp.shape)
         return (f'|field| at reported coordinates (x={xs[l]:.6g}, y={ys[k]:.6g}) is {amp[k, l]:.6g}, the aperture tilted by '
                 f'({kx},{ky}) waves gives {ref[k, l]:.6g} there (rel. err {err:.3g})')
@@ -140,15 +142,21 @@ def pred_spot_fixed(c):
     pr, _ = _impl()
     m, n, M, N = c['m'], c['n'], c['M'], c['N']
     lam, efl, dx, dxo = c['lam'], c['efl'], c['dx'], c['dxo']
-    sx, sy = c['shift'][0] * dxo, c['shift'][1] * dxo
+    sx, sy = L.eff_shift(c, dxo)
     wf = tilted_pupil(pr, m, n, dx, lam, c['ky'], c['kx'])
-    kw = {} if c.get('hform') == 'default' else {'shift': L.shift_arg(c.get('hform', 'tuple'), sx, sy)}
-    psf = wf.focus_fixed_sampling(efl, dxo, L.samples_arg(c.get('sform', 'tuple'), M, N), method=c['method'], **kw)
+    A = L.Args()
+    kw = {} if c.get('hform') == 'default' else {'shift': L.shift_arg(c.get('hform', 'tuple'), sx, sy, A)}
+    so = L.samples_arg(c.get('sform', 'tuple'), M, N, A)
+    wf.focus_fixed_sampling(efl, dxo, so, method=c['method'], **kw)      # a first call with the same argument objects
+    if A.changed():
+        return A.changed()
+    psf = wf.focus_fixed_sampling(efl, dxo, so, method=c['method'], **kw)
     bad = L.check_wavefront(psf, 'focus_fixed_sampling(...)', (M, N), dxo, lam, 'psf')
     if bad:
         return bad
     I = psf.intensity
-    return _spot_check(I.data, I.x[0], I.y[:, 0], m, n, dx, lam, efl, c['ky'], c['kx'], dx * dxo / (lam * efl), sx, sy)
+    return _spot_check(I.data, I.x[0], I.y[:, 0], m, n, dx, lam, efl, c['ky'], c['kx'], dx * dxo / (lam * efl), sx, sy,
+                       tol=L.tol_of(c, TOL))
 
 
 def pred_spot_fft(c, axis1_only=False):
@@ -182,11 +190,18 @@ def pred_phys_fixed(c):
     pr, _ = _impl()
     m, n, M, N = c['m'], c['n'], c['M'], c['N']
     lam, z, dx, dxo = c['lam'], c['efl'], c['dx'], c['dxo']
-    sx, sy = c['shift'][0] * dxo, c['shift'][1] * dxo
+    sx, sy = L.eff_shift(c, dxo)
     f = L.case_field(c)
     f0 = f.copy()
-    kw = {} if c.get('hform') == 'default' else {'shift': L.shift_arg(c.get('hform', 'tuple'), sx, sy)}
-    so = L.samples_arg(c.get('sform', 'tuple'), M, N)
+    A = L.Args()
+    kw = {} if c.get('hform') == 'default' else {'shift': L.shift_arg(c.get('hform', 'tuple'), sx, sy, A)}
+    so = L.samples_arg(c.get('sform', 'tuple'), M, N, A)
+    if c.get('repeat', True):
+        # the same argument objects are used for an earlier call (a loop over methods / wavelengths in user code)
+        (pr.focus_fixed_sampling if c['dir'] == 'fwd' else pr.unfocus_fixed_sampling)(
+            f, dx, z, lam, dxo, so, method='mdft' if c['method'] == 'czt' else 'czt', **kw)
+        if A.changed():
+            return A.changed()
     fwd = c['dir'] == 'fwd'
     sign, space = (-1, 'psf') if fwd else (+1, 'pupil')
     name = f'{"" if fwd else "un"}focus_fixed_sampling(...)'
@@ -207,6 +222,8 @@ def pred_phys_fixed(c):
         xs, ys = I.x[0], I.y[:, 0]
     if f.dtype != f0.dtype or not np.array_equal(f, f0):
         return 'the input array was modified in place'
+    if A.changed():
+        return A.changed()
     ref = (dx * dxo / (lam * z)) * phys_integral(L.as_complex(f), dx, lam, z, ys - sy, xs - sx, sign)
     if any(c['shift']):
         err = _relerr(np.abs(data), np.abs(ref))
@@ -214,7 +231,7 @@ def pred_phys_fixed(c):
     else:
         err = _relerr(data, ref)
         what = 'out differs (as complex numbers, no shift requested) from the physical integral at the reported coordinates'
-    if err > TOL:
+    if err > L.tol_of(c, TOL):
         return f'{what} (rel. err {err:.3g}; dtype {f0.dtype}, method {c["method"]})'
     return None
 
@@ -229,12 +246,15 @@ def pred_pure(c):
         call = lambda: (wf.focus if c['dir'] == 'fwd' else wf.unfocus)(c['efl'], c['Q']).data   # noqa: E731
     else:
         fn = pr.focus_fixed_sampling if c['dir'] == 'fwd' else pr.unfocus_fixed_sampling
-        sx, sy = c['shift'][0] * c['dxo'], c['shift'][1] * c['dxo']
+        sx, sy = L.eff_shift(c, c['dxo'])
         call = lambda: L.call_fixed(fn, f, c['dx'], c['efl'], c['lam'], c['dxo'], c['M'], c['N'], sx, sy, c['method'],   # noqa: E731
-                                    c.get('sform', 'tuple'), c.get('hform', 'tuple'))
+                                    c.get('sform', 'tuple'), c.get('hform', 'tuple'), A)
+    A = L.Args()
     a = np.array(call())
     if f.dtype != f0.dtype or not np.array_equal(f, f0):
         return 'implementation modified a caller-owned argument array in place'
+    if A.changed():
+        return A.changed()
     b = np.array(call())
     if a.shape != b.shape or not np.array_equal(a, b):
         return 'second evaluation with the same arguments differs from the first (history dependence)'
@@ -251,6 +271,8 @@ def pred_shift_fixed(c):
     s0 = (c['shift'][0] * dxo, c['shift'][1] * dxo)
     px, py = c['p']
     s1 = (s0[0] + px * dxo, s0[1] + py * dxo)
+    if c.get('hform') in ('array', 'list'):
+        s0, s1 = (np.array(s0), np.array(s1)) if c['hform'] == 'array' else (list(s0), list(s1))
     a = np.abs(fn(f, dx, z, lam, dxo, (M, N), shift=s0, method=c['method']))
     b = np.abs(fn(f, dx, z, lam, dxo, (M, N), shift=s1, method=c['method']))
     # b[k+py, l+px] == a[k, l] on the overlap
@@ -480,7 +502,7 @@ def correspondence(ctx):
         for direction in ('fwd', 'inv'):
             c = gen_fixed(rng, hi, i, direction)
             f = L.case_field(c)
-            sx, sy = c['shift'][0] * c['dxo'], c['shift'][1] * c['dxo']
+            sx, sy = L.eff_shift(c, c['dxo'])
             head = ['fs', direction, str(c['m']), str(c['n']), str(c['M']), str(c['N'])]
             nums = [C.f2w(v) for v in (c['dx'], c['efl'], c['lam'], c['dxo'], sx, sy)]
             lines.append(' '.join(head + nums + _wire_field(L.as_complex(f))))
@@ -517,7 +539,7 @@ def correspondence(ctx):
     for i in range(6):
         c = gen_fixed(rng, 7, i, 'fwd' if i % 2 else 'inv')
         f = L.case_field(c)
-        sx, sy = c['shift'][0] * c['dxo'], c['shift'][1] * c['dxo']
+        sx, sy = L.eff_shift(c, c['dxo'])
         k, l = int(rng.integers(c['M'])), int(rng.integers(c['N']))
         head = ['fspt', c['dir'], str(c['m']), str(c['n']), str(c['M']), str(c['N']), str(k), str(l)]
         nums = [C.f2w(v) for v in (c['dx'], c['efl'], c['lam'], c['dxo'], sx, sy)]
@@ -550,8 +572,11 @@ def correspondence(ctx):
                    f"{'shift' if any(c['shift']) else 'noshift'}/{c['dtype']}-{c['layout']}/samples-{c['sform']}/shift-{c['hform']}")
             ctx.case(item, c, nontrivial=c['m'] * c['n'] > 1, tag=tag)
             try:
+                A = L.Args()
                 out = C.pure_call(ctx, item, c, L.call_fixed, fn, f, c['dx'], c['efl'], c['lam'], c['dxo'], c['M'], c['N'], sx, sy,
-                                  c['method'], c['sform'], c['hform'])
+                                  c['method'], c['sform'], c['hform'], A)
+                if A.changed():
+                    ctx.pred_fail(item, c, A.changed())
             except Exception as ex:
                 ctx.disagree(item, c, f'raised {type(ex).__name__}: {ex}', 'model returns a field')
                 continue
@@ -563,7 +588,7 @@ def correspondence(ctx):
                     ctx.disagree(item, c, list(out.shape), list((c['M'], c['N'])), note='shape')
                     continue
                 d = abs(out[k, l] - mod) if not any(c['shift']) else abs(abs(out[k, l]) - abs(mod))
-                if d > TOL * max(1.0, np.abs(out).max()):
+                if d > L.tol_of(c, TOL) * max(1.0, np.abs(out).max()):
                     ctx.disagree(item, dict(c, point=[k, l]), complex(out[k, l]), mod, note='Model.C03.fixedSampling pointwise')
                 continue
             mod = _unwire_field(rep.split(), (c['M'], c['N']))
@@ -572,9 +597,9 @@ def correspondence(ctx):
                 continue
             # the property's equivalence: complex values at zero shift, moduli when a shift is requested (a shifted
             # transform is only defined up to a unit phase per output sample; C05 checks the phase consistency of the legs)
-            a, b = (out, mod) if not any(c['shift']) else (np.abs(out), np.abs(mod))
+            a, b = (out, mod) if not (sx or sy) else (np.abs(out), np.abs(mod))
             err = _relerr(a, b)
-            if err > TOL:
+            if err > L.tol_of(c, TOL):
                 k, l = np.unravel_index(np.argmax(np.abs(a - b)), out.shape)
                 ctx.disagree(item, c, f'out[{k},{l}]={complex(out[k, l]):.6g}', f'{complex(mod[k, l]):.6g} (rel. err {err:.3g})')
             continue
@@ -680,6 +705,12 @@ def _small_scope():
                         yield 'phys_fixed', dict(c, N=c['M'], sform='int', api='function')
                         yield 'phys_fixed', dict(c, N=c['M'], sform='int', api='wrapper')
                         yield 'phys_fixed', dict(c, sform='list', hform='array', api='function')
+                        yield 'phys_fixed', dict(c, sform='array', hform='array', api='wrapper')
+                        yield 'phys_fixed', dict(c, sform='array32', hform='array32', api='function')
+                        yield 'phys_fixed', dict(c, sform='nptuple', hform='arrayint', api='wrapper')
+                        yield 'phys_fixed', dict(c, hform='npscalars', api='function')
+                        yield ('ffs' if direction == 'fwd' else 'ufs'), dict(c, sform='array', hform='array')
+                        yield 'shift_fixed', dict(c, p=[1, -2], hform='array')
                         yield 'ffs' if direction == 'fwd' else 'ufs', c
             for pos in ((0, 0), (0, 1), (1, 0), (-1, 1), (-2, -1)):
                 yield 'tilt_unfocus_fixed', {'M': m, 'N': n, 'm': n + 1, 'n': m + 2, 'lam': lam, 'efl': efl, 'dx': 5.0,
@@ -714,7 +745,12 @@ def replay(inp):
         print('no predicate for item', item)
         return False
     d = eval_pred(item, c)
-    print('predicate on the real code:', 'holds' if d is None else f'FAILS: {d}')
+    print('predicate on the real code, fresh process:', 'holds' if d is None else f'FAILS: {d}')
+    if d is None:
+        # the recorded failure may need earlier calls (state kept between calls): repeat after a deterministic history
+        hist = L.prelude(c)
+        d = eval_pred(item, c)
+        print(f'after {hist}:', 'holds' if d is None else f'FAILS: {d}')
     return d is not None
 
 
